@@ -27,6 +27,9 @@ def items_for(tier, cases, chunk=48):
     return items
 
 
+HISTORY = []       # layouts this worker process has handled before (specs)
+
+
 def work(item, prop=PROP):
     ci, prev, pat, ls = item
     case = CASES['list'][ci]
@@ -40,7 +43,14 @@ def work(item, prop=PROP):
             run.ok(key=key)
         else:
             for sig, detail in fails:
+                # a failure may depend on what the library remembers from
+                # other tag objects of this process: the layouts handled
+                # before are part of the replayable artefact
+                detail['process_history'] = [list(x) for x in HISTORY[-60:]]
                 run.fail(sig, detail, key=key)
+    spec = list(case.spec)
+    if spec not in HISTORY:
+        HISTORY.append(spec)
         for o in f.obs:
             run.count(o)
             run.outcome((case.kind, o))
@@ -93,6 +103,20 @@ def replay(doc):
     d = doc['detail']
     case = tc.from_spec(d['spec'])
     f = tc.check_write(case, d['prev'], d['pattern'], d['n'])
+    if not f.items[PROP] and d.get('process_history'):
+        # not reproduced on its own: the layouts the worker had handled
+        # before (one short write each), then the case again
+        for spec in d['process_history']:
+            c = tc.from_spec(spec)
+            tc.check_write(c, 'empty', 'count', min(1, c.ref_capacity()))
+        f = tc.check_write(case, d['prev'], d['pattern'], d['n'])
+        if f.items[PROP]:
+            print('reproduced only after %d other layouts were handled in '
+                  'the same process (state shared between tag objects)'
+                  % len(d['process_history']))
+            for sig, det in f.items[PROP]:
+                print('VIOLATION %s' % sig)
+            return 1        # (the class of the failure depends on the history)
     for sig, det in f.items[PROP]:
         print('VIOLATION %s' % sig)
         print('  %r' % (det,))
